@@ -19,3 +19,8 @@ Proof. reflexivity. Qed.
 (* ORDER BY / LIMIT / OFFSET after the chain wrap the whole chain, never its last operand *)
 Theorem C02_tail_wraps_whole_chain : forall s0 l t ts, with_tail (to_union s0 l) (t :: ts) = JDict (("from", spec_union s0 l) :: t :: ts).
 Proof. intros. unfold with_tail. rewrite to_union_is_spec. reflexivity. Qed.
+
+(* FROM: the grammar nests a run of joins that carry no ON / USING (each takes the next join as its child) and to_join_call flattens the nest back:
+   every source written is in the list once, in the order written, for runs of any length *)
+Theorem C02_from_sources_in_order : forall t0 runs, from_list t0 runs = t0 :: List.concat (map (fun r => fst r :: snd r) runs).
+Proof. exact from_list_spec. Qed.
